@@ -278,7 +278,7 @@ func (c *cors) handle(node types.Node, wh http.Header, r *http.Request) {
 		}
 		if c.allowHeadersString != "" {
 			wh.Set(header.AccessControlAllowHeaders, c.allowHeadersString)
-			wh.Add(header.Vary, header.AccessControlAllowHeaders)
+			wh.Add(header.Vary, header.AccessControlRequestHeaders)
 		}
 
 		// Access-Control-Max-Age
@@ -297,7 +297,7 @@ func (c *cors) handle(node types.Node, wh http.Header, r *http.Request) {
 		allowOrigin = origin
 	}
 	wh.Set(header.AccessControlAllowOrigin, allowOrigin)
-	wh.Add(header.Vary, header.AccessControlAllowOrigin)
+	wh.Add(header.Vary, header.Origin)
 
 	// Access-Control-Allow-Credentials
 	if c.AllowCredentials {
